@@ -433,6 +433,11 @@ def cases(rng, tier, shard, nshards):
             steps = np.cumsum(rng.integers(-1, 3, len(knees)))
             pts[np.asarray(knees, dtype=int), 1] = abs(base) * (1.0 + delta * steps)
             fam = fam + '+near-tie-heights'
+        if lay is None and rng.random() < 0.04:
+            # heights below zero (log-scaled miss ratios, centred data): the selection rules only compare heights
+            pts = pts.copy()
+            pts[:, 1] = pts[:, 1] - float(np.max(pts[:, 1])) * float(rng.uniform(0.3, 1.5)) - (1.0 if rng.random() < 0.5 else 0.0)
+            fam = str(fam) + '+negative-y'
         yield {'points': pts, 'family': fam, 'layout': lay or gen.pick_layout(rng, pts, 0.6),
                'knees': knees, 'ts': _thresholds(rng, pts, knees),
                'even': bool(rng.random() < 0.2),
